@@ -642,17 +642,30 @@ def realm_tree(rng):
             if r < 0.30 or depth >= 4:
                 js.append(TREE_P)
                 cq.append("AProbe")
-            elif r < 0.40:
+            elif r < 0.12 + 0.30:
+                # targeted: a native of ANOTHER realm fails (after optionally entering a third realm / creating one) and the
+                # error is caught in this frame; the probe that follows must see this function's realm again
+                k = (realm + 1 + rng.randrange(K - 1)) % K
+                pre = rng.choice(["", "p ", "e%d " % rng.randrange(K), "r p ", "p e%d p " % rng.randrange(K)])
+                nb = []
+                for t in pre.split():
+                    nb.append("AProbe" if t == "p" else ("ACreateRealm" if t == "r" else "AEnter %s" % t[1:]))
+                ctor = rng.random() < 0.3
+                js.append("try{%s(%s);}catch(e){print('C');} %s" % (("new T.natc[%d]" if ctor else "T.nat[%d]") % k, _json.dumps(pre + "t"), TREE_P))
+                cq.append("ATry [ACallNative (Some %d) [%s]]" % (k, "; ".join(nb + ["AThrow"])))
+                cq.append("AProbe")
+                feats.add("caught-native-error-then-probe")
+            elif r < 0.48:
                 bj, bc = body(realm, depth + 1)
                 js.append("try{%s}catch(e){print('C');}" % bj)
                 cq.append("ATry [%s]" % bc)
                 feats.add("js-try")
-            elif r < 0.48:
+            elif r < 0.54:
                 js.append("throw 1;")
                 cq.append("AThrow")
                 feats.add("js-throw")
                 break
-            elif r < 0.66:
+            elif r < 0.70:
                 m, rm, fc = new_fn(depth)
                 js.append("T.f%d();" % m)
                 cq.append("ACallFn %d [%s]" % (rm, fc))
@@ -687,7 +700,9 @@ def realm_tree(rng):
                         feats.add("native-eval")
                     elif t == "r":
                         toks.append("r")
+                        toks.append("p")
                         nb.append("ACreateRealm")
+                        nb.append("AProbe")
                         feats.add("create-realm")
                     else:
                         toks.append("t")
